@@ -3,6 +3,7 @@
 import json, glob, os, re
 ROOT = os.path.dirname(os.path.dirname(os.path.abspath(__file__)))
 rows = []
+neutral = []
 n = ns = 0
 for d in sorted(glob.glob(os.path.join(ROOT, 'seeded', '*-m*'))):
     m = json.load(open(os.path.join(d, 'meta.json')))
@@ -11,12 +12,14 @@ for d in sorted(glob.glob(os.path.join(ROOT, 'seeded', '*-m*'))):
     if len(summ) > 150:
         summ = summ[:150].rsplit(' ', 1)[0] + ' …'
     st = bool(c.get('check_strengthened_because_of_this_seed'))
+    if m.get('neutralised'):
+        neutral.append(os.path.basename(d))
     n += 1
     ns += st
     rows.append('| %s | %s | %s | %s |' % (os.path.basename(d), ', '.join(m.get('files', [])) or '-', summ, '**yes**' if st else 'no'))
-tbl = ('<!-- SEEDTABLE-BEGIN -->\n%d changes, all caught by the quick tier of the check of their property; **%d were missed on the first run** and the check was\n'
-       'strengthened until it caught them (column "strengthened"): what each needed is the coverage that was missing.\n\n'
-       '| seed | file(s) changed | change | strengthened |\n|---|---|---|---|\n' % (n, ns)) + '\n'.join(rows) + '\n<!-- SEEDTABLE-END -->'
+tbl = ('<!-- SEEDTABLE-BEGIN -->\n%d changes, each caught by the quick tier of the check of its property when it was kept; **%d were missed on the first run** and the check was\n'
+       'strengthened until it caught them (column "strengthened"): what each needed is the coverage that was missing. %s\n\n'
+       '| seed | file(s) changed | change | strengthened |\n|---|---|---|---|\n' % (n, ns, ('Later `fix:` commits made %d of them harmless (%s: the seed\'s own demonstration passes on the patched current tree, the check is rightly silent; see `neutralised` in their meta.json).' % (len(neutral), ', '.join(neutral))) if neutral else '')) + '\n'.join(rows) + '\n<!-- SEEDTABLE-END -->'
 p = os.path.join(ROOT, 'DESIGN.md')
 s = open(p).read()
 if '<!-- SEEDTABLE-BEGIN -->' in s:
